@@ -817,6 +817,20 @@ def r6(c, rid="C07.R6"):
             ok = flat(d)[:2] == lead or flat(d) == flat("%")
         c.check(rid, ok, repo.loc(m, node), "_parse_raw_rule/row-cut", f"the row is cut at {d!r} ({kind}) while parameters are recognised after any blank (`\\s%`): a parameter written after a tab or a "
                 "continuation line is parsed as a parameter AND stays in the row text, so the rule's regexp demands the literal text `%name` and matches nothing", key_text="row-cut")
+    # the row handed on is single-spaced: reverse forms are built by prefix slicing (`row[len(prefix + " "):]`) and word templates, which only line up on single blanks
+    rets = [n for n in walk_no_nested(fn) if isinstance(n, ast.Return) and n.value is not None]
+    okn = False
+    for r_ in rets:
+        e0 = r_.value.elts[0] if isinstance(r_.value, ast.Tuple) and r_.value.elts else r_.value
+        v_ = pv.resolve_alias(e0)
+        if isinstance(v_, ast.Call) and call_name(v_) == "re.sub" and len(v_.args) >= 3 and const(v_.args[0]) is not None and flat(const(v_.args[0])) == flat(r"\s+") and const(v_.args[1]) == " ":
+            okn = True
+        if isinstance(v_, ast.Call) and isinstance(v_.func, ast.Attribute) and v_.func.attr == "join" and const(v_.func.value) == " " and v_.args \
+                and isinstance(v_.args[0], ast.Call) and isinstance(v_.args[0].func, ast.Attribute) and v_.args[0].func.attr == "split" and not v_.args[0].args:
+            okn = True
+    c.check(rid, okn, repo.loc(m, rets[-1] if rets else fn), "_parse_raw_rule/row-single-spaced", "the row is handed on without collapsing runs of blanks / tabs to one space: the direct regexp still "
+            "matches (blank runs become \\s+), but every reverse form (patching template, ACL and ordering reverse regexps) is built by slicing `prefix + ' '` off the row and no "
+            "longer lines up for a rule written with a tab or two blanks", key_text="row-not-normalised")
     # the cut is applied only where a parameter was recognised
     gm = GuardMap(fn)
     found = set()
